@@ -57,7 +57,7 @@ contract(f"{G}::PrimaiteGame.setup_reward_sharing#callback", region=("lambda", 0
 
 # update_agents: per agent, in reward-calculation order: (from step 1 on) the reward is computed and recorded, and only then
 # added to that agent's episode total -- "an agent's episode total is the sum of its step rewards"
-dispatch_contract(f"{IF}::AbstractAgent.update_observation", ensures=[], modifies=["ObservationManager.current_observation", "AbstractObservation.cached_obs"], allocates=True)
+dispatch_contract(f"{IF}::AbstractAgent.update_observation", ensures=[], modifies=["ObservationManager.current_observation"], allocates=True)
 contract(f"{IF}::AbstractAgent.update_observation", verify=False, note="observation refresh: observation manager state only",
          ensures=[], modifies=["ObservationManager.current_observation"], allocates=True)
 spec("agent_at(g, k)", "g.agents[g._reward_calculation_order[k]]")
